@@ -42,6 +42,13 @@ ExprPostfixCases ==
             Case("indexOf", "indexOf:" \o o, f, InDecl(Idx("v", <<Bin(o, a, b)>>))),
             Case("castOf", "castOf:" \o o, f, InDecl(Cast(Ty("float", Lit("32")), Bin(o, a, b)))),
             Case("binOfCast", "binOfCast:" \o o, f, InDecl(Bin(o, Cast(Ty("int", Lit("8")), a), Cast(Ty("bool", None), b)))) } : o \in Ops, f \in BOOLEAN }
+  (* items of index lists, sets, argument lists and case values that START with a unary operator *)
+  \cup UNION { { Case("itemStartsWithUn", "itemStartsWithUn:index:" \o u, f, InDecl(Idx("v", <<Un(u, a)>>))),
+                 Case("itemStartsWithUn", "itemStartsWithUn:index2:" \o u, f, InDecl(Idx("v", <<one, Un(u, a)>>))),
+                 Case("itemStartsWithUn", "itemStartsWithUn:arg:" \o u, f, InDecl(Call("f", <<Un(u, a), Un(u, b)>>))),
+                 Case("itemStartsWithUn", "itemStartsWithUn:assignIndex:" \o u, f, << Assign(Idx("v", <<Un(u, a)>>), one) >>),
+                 Case("itemStartsWithUn", "itemStartsWithUn:set:" \o u, f, << For(IntT, "i", SetE(<<Un(u, a), two>>), Body(TRUE, <<>>)) >>),
+                 Case("itemStartsWithUn", "itemStartsWithUn:case:" \o u, f, << Switch(a, <<[vals |-> <<Un(u, one), two>>, stmts |-> <<>>]>>, None) >>) } : u \in Uns, f \in {FALSE} }
   \cup { Case("postfixChain", "postfixChain:" \o sg, f, InDecl(e)) : f \in BOOLEAN,
           <<sg, e>> \in { <<"call[i][j]", IdxE(IdxE(Call("f", <<a>>), <<one>>), <<two>>)>>,
                           <<"cast[r][i]", IdxE(IdxE(Cast(Ty("bit", Lit("8")), a), <<Rng(one, None, two)>>), <<one>>)>>,
@@ -106,6 +113,8 @@ GateStmts ==
          GPhase(<<>>, Id("pi")), GPhase(<<Mod("ctrl", None)>>, Bin("/", Id("pi"), two)), GPhase(<<Mod("inv", None)>>, a),
          Reset(q), Reset(q0), Reset(hw), Barrier(<<q>>), Barrier(<<q, r1, hw>>), Barrier(<<>>),
          Delay(TLit("10", "ns"), <<q>>), Delay(TLit("20", "%%00B5;s"), <<q>>), Delay(Id("t"), <<q0, r1>>), Delay(Bin("*", two, Id("t")), <<q>>) }
+  (* durations that start with a float literal, or are expressions starting with one *)
+  \cup { Delay(TLit("1.5", "ns"), <<q>>), Delay(TLit(".5", "us"), <<hw>>), Delay(Bin("*", Lit("2.0"), Id("t")), <<q0, r1>>), Delay(TLit("2.5", "%%00B5;s"), <<q>>) }
   (* operands with several indexes in one operator, and with several index operators *)
   \cup { GateCall(<<>>, "h", <<>>, <<o>>) : o \in QOperands2 } \cup { Reset(o) : o \in QOperands2 } \cup { Barrier(<<o, q>>) : o \in QOperands2 }
   \cup { Delay(TLit("10", "ns"), <<o>>) : o \in QOperands2 } \cup { Assign(Id("m"), Meas(o)) : o \in QOperands2 \cup {q0, hw} }
